@@ -25,22 +25,25 @@ inductive CallPc where
   | idle
   | registered (conn rid : Nat)                     -- waiter in the table, request not yet handed over
   | written (conn rid : Nat)                        -- request accepted by the transport, waiting
+  | returning (conn rid : Nat) (res : Option Pkt)   -- recv has decided (response taken / closed / deadline / write error);
+                                                    -- the deferred unregister has not run yet: the entry is still in the table
   | done (conn rid : Nat) (res : Option Pkt)        -- returned; none = error (write error / closed / deadline)
   deriving DecidableEq, Repr
 
 structure St where
   cur : Nat                         -- current connection (`c.conn`)
-  nextId : Nat                      -- next request id on the current connection (restarts at 1)
+  issued : Nat → Bool               -- request ids already handed out on the current connection (atomic counter: each id once)
   recvs : Nat → Option (Nat × Nat)  -- rid ↦ (call, connection)
   chan : Nat → Chan                 -- the channel each call owns
   call : Nat → CallPc
 
 inductive Act where
-  | start (i : Nat)                 -- Do: read conn, take id, register(rid, conn)
+  | start (i : Nat) (rid : Nat)     -- Do: read conn, take a FRESH id (C19: the generator hands out each id once), register(rid, conn)
   | write (i : Nat) (ok : Bool)     -- conn.Write
   | dispatch (p : Pkt)              -- handleResponse(conn, p): any packet from any connection's dispatcher, any time
   | wake (i : Nat)                  -- recv: the select takes the slot (response or closed)
   | giveUp (i : Nat)                -- recv: the deadline branch
+  | finish (i : Nat)                -- the deferred unregister(rid, w), then Do returns
   | failAll                         -- reconnect(): close every registered channel, replace the table
   | newConn                         -- dial installs a fresh connection: ids restart
   deriving DecidableEq, Repr
@@ -60,24 +63,25 @@ def closeRegistered (s : St) : Nat → Chan := fun i =>
   | x, _ => x
 
 def step (s : St) : Act → Option St
-  | .start i =>
+  | .start i rid =>
     match s.call i with
-    | .idle => some { s with nextId := s.nextId + 1,
-                             recvs := upd s.recvs s.nextId (some (i, s.cur)),
+    | .idle => if s.issued rid then none else
+               some { s with issued := upd s.issued rid true,
+                             recvs := upd s.recvs rid (some (i, s.cur)),
                              chan := upd s.chan i .empty,
-                             call := upd s.call i (.registered s.cur s.nextId) }
+                             call := upd s.call i (.registered s.cur rid) }
     | _ => none
   | .write i ok =>
     match s.call i with
     | .registered c r => if ok then some { s with call := upd s.call i (.written c r) }
-                         else some { s with call := upd s.call i (.done c r none), recvs := unregister s i r }
+                         else some { s with call := upd s.call i (.returning c r none) }
     | _ => none
   | .dispatch p =>
     match s.recvs p.rid with
     | some (i, c) =>
         if c = p.conn then
           (match s.chan i with
-           | .empty => some { s with chan := upd s.chan i (.full p) }
+           | .empty => some { s with chan := upd s.chan i (.full p) }   -- also when the caller has already left recv: nobody reads it
            | _ => some s)                                   -- duplicate: dropped with a warning
         else some s                                         -- waiter of another connection: dropped
     | none => some s                                        -- no receiver: dropped
@@ -85,18 +89,22 @@ def step (s : St) : Act → Option St
     match s.call i with
     | .written c r =>
       match s.chan i with
-      | .full p => some { s with call := upd s.call i (.done c r (some p)), recvs := unregister s i r }
-      | .closed => some { s with call := upd s.call i (.done c r none), recvs := unregister s i r }
+      | .full p => some { s with call := upd s.call i (.returning c r (some p)), chan := upd s.chan i .empty }
+      | .closed => some { s with call := upd s.call i (.returning c r none) }
       | _ => none
     | _ => none
   | .giveUp i =>
     match s.call i with
-    | .written c r => some { s with call := upd s.call i (.done c r none), recvs := unregister s i r }
+    | .written c r => some { s with call := upd s.call i (.returning c r none) }
+    | _ => none
+  | .finish i =>
+    match s.call i with
+    | .returning c r res => some { s with call := upd s.call i (.done c r res), recvs := unregister s i r }
     | _ => none
   | .failAll => some { s with recvs := fun _ => none, chan := closeRegistered s }
-  | .newConn => some { s with cur := s.cur + 1, nextId := 1 }
+  | .newConn => some { s with cur := s.cur + 1, issued := fun _ => false }
 
-def init : St := { cur := 0, nextId := 1, recvs := fun _ => none, chan := fun _ => .unused, call := fun _ => .idle }
+def init : St := { cur := 0, issued := fun _ => false, recvs := fun _ => none, chan := fun _ => .unused, call := fun _ => .idle }
 
 def run : St → List Act → Option St
   | s, [] => some s
